@@ -31,7 +31,7 @@ def check(run):
         run.oblige("oracle:python3.13-present", False, "the interpreter used to derive equivalent spellings is missing")
         return
     rng = run.rng
-    n = 5000 if run.tier == "quick" else 120000
+    n = 15000 if run.tier == "quick" else 120000
     base = []
     for _ in range(n):
         k = rng.choice([1, 2, 2, 3])
